@@ -20,9 +20,21 @@ inline void ev(std::string s) { evs.push_back(std::move(s)); }
 template <bool Eager, bool VoidRet>
 struct Puller;
 
-template <bool Eager, bool VoidRet>
-struct PromiseBase {
+// how the promise takes a yielded value: by value (lazy pullers) or by rvalue reference only (eager pullers, "sink" style:
+// an lvalue of the value type does not bind).  The CO_YIELD expressions are of type long, not int, so that the library's own
+// `p.yield_value(r)` check (r an lvalue of the expression's type) goes through a conversion temporary in both cases.
+template <bool RvalueOnly> struct YieldPolicy;
+template <> struct YieldPolicy<false> {
   std::optional<int> cur;
+  std::suspend_always yield_value(int v) { cur = v; return {}; }
+};
+template <> struct YieldPolicy<true> {
+  std::optional<int> cur;
+  std::suspend_always yield_value(int&& v) { cur = v; return {}; }
+};
+
+template <bool Eager, bool VoidRet>
+struct PromiseBase : YieldPolicy<Eager> {
   std::optional<int> ret;
   bool completed = false;
   std::exception_ptr exc;
@@ -36,7 +48,6 @@ struct PromiseBase {
     return A{};
   }
   std::suspend_always final_suspend() noexcept { return {}; }
-  std::suspend_always yield_value(int v) { cur = v; return {}; }
   void unhandled_exception() { exc = std::current_exception(); }
 };
 
@@ -98,7 +109,7 @@ struct Ctx {
   int rval = 0;
 };
 
-int y(Ctx const* c, int i)
+long y(Ctx const* c, int i)
 {
   ev("evalY e" + std::to_string(c->id) + " " + std::to_string(i));
   auto const& s = c->ys.at(static_cast<size_t>(i));
